@@ -135,7 +135,7 @@ func buildBinary(flavour, dir string) (string, error) {
 	args = append(args, "-o", out, "./cmd/vmon")
 	var b []byte
 	var err error
-	for attempt := 0; attempt < 2; attempt++ {
+	for attempt := 0; attempt < 4; attempt++ {
 		cmd := exec.Command(gobin, args...)
 		cmd.Dir = verifDir
 		cmd.Env = goEnv()
@@ -144,7 +144,7 @@ func buildBinary(flavour, dir string) (string, error) {
 		}
 		// a build cache that is being trimmed concurrently makes a build
 		// fail spuriously: try once more before giving up
-		time.Sleep(3 * time.Second)
+		time.Sleep(time.Duration(5*(attempt+1)) * time.Second)
 	}
 	return "", fmt.Errorf("build %s failed: %v\n%s", flavour, err, b)
 }
